@@ -326,7 +326,7 @@ def pyScalar (c : Rat) (op : Op) : Value → R Value
       | .pow => adRpow a (.scalar c)
       | .matmul => adRmatmul 0 a (.scalar c)
   | .slicer _ => .error .unsupported         -- reverse methods of ArraySlicer: pending operand
-  | .slicers _ => .error .typeError
+  | .slicers _ => .error .unsupported        -- TypeError for a float, list repetition for the int 0 of an empty sum
 
 def pyVec (v : Vec) (op : Op) : Value → R Value
   | .scalar c =>
